@@ -349,8 +349,9 @@ def run(ctx):
                 ctx.count("unknown.on-" + ref["status"])
                 ctx.count("unknown.%s.%s" % (tag, "p0" if ref["p"] is not None and abs(ref["p"]) < 1e-9 else "other"))
                 continue
-            if not c.require(st == expect, "solve:status-%s-but-reference-%s" % (st.replace(" ", "-"), ref["status"]),
-                             "op.solve(%s): status %r, HiGHS on the oracle's LP: %s" % (tag, st, ref["status"])):
+            if st != expect:
+                c.fail(mech(p, rcons, ref, "solve:status-%s-but-reference-%s" % (st.replace(" ", "-"), ref["status"])),
+                       "op.solve(%s): status %r, HiGHS on the oracle's LP: %s" % (tag, st, ref["status"]))
                 continue
             ctx.count("agree." + ref["status"])
             judge(c, P, ref, rv, obj, rcons, p, tag, rng)
@@ -372,7 +373,7 @@ def run(ctx):
                 kw["b_eq"] = -to_np(lp1._equalities[0]._f._constant).reshape(-1)
             from scipy.optimize import linprog
             r = linprog(cc, A_ub=G, b_ub=np.broadcast_to(h, (G.shape[0],)), bounds=[(None, None)] * n, method="highs", **kw)
-            return (r.fun + d) if r.status == 0 else None
+            return ({0: "optimal", 2: "infeasible", 3: "unbounded"}.get(r.status), (r.fun + d) if r.status == 0 else None)
         except Exception:
             return None
 
@@ -387,10 +388,49 @@ def run(ctx):
             pass
         return False
 
+    def pieces_wrong(p, rcons):
+        """diagnostic only: a PWL inequality whose linear pieces (no auxiliary variables) do not
+        reproduce the constraint function at random points"""
+        try:
+            import random as _r
+            rr = _r.Random(12345)
+            vs = p.variables()
+            saved = [v.value for v in vs]
+            bad = False
+            for rc in rcons:
+                if rc.type() != "<" or rc._f._isaffine():
+                    continue
+                ineqs, aux, _ = rc._aslinearineq()
+                if aux:
+                    continue
+                for _ in range(3):
+                    for v in vs:
+                        v.value = matrix([rr.uniform(-5, 5) for _ in range(len(v))], (len(v), 1))
+                    want = np.array(list(rc.value()))
+                    got = np.full(len(rc), -np.inf)
+                    for i in ineqs:
+                        pv = np.array(list(i.value()))
+                        if len(pv) == len(got):
+                            got = np.maximum(got, pv)
+                        elif len(pv) == 1:
+                            got = np.maximum(got, pv[0])
+                        else:
+                            got = np.maximum(got, pv.max())
+                    if np.max(np.abs(got - want)) > 1e-8 * max(1.0, np.max(np.abs(want))):
+                        bad = True
+            for v, val in zip(vs, saved):
+                v.value = val
+            return bad
+        except Exception:
+            return False
+
     def mech(p, rcons, ref, generic):
-        pl = lib_lp_optimum(p)
-        if pl is not None and ref["p"] is not None and abs(pl - ref["p"]) > 1e-6 * max(1.0, abs(ref["p"])):
+        if pieces_wrong(p, rcons):
             return "solve:matrix-form-conversion-changes-the-problem"
+        pl = lib_lp_optimum(p)
+        if pl is not None and pl[0] is not None:
+            if pl[0] != ref["status"] or (pl[1] is not None and abs(pl[1] - ref["p"]) > 1e-6 * max(1.0, abs(ref["p"]))):
+                return "solve:matrix-form-conversion-changes-the-problem"
         if "multiplier" in generic or "certificate" in generic:
             if pieces_differ(rcons):
                 return "solve:multiplier-sum-broadcasts-pieces-of-different-length"
@@ -418,9 +458,12 @@ def run(ctx):
                 viol = float(np.max(hv if c_["typ"] == "<" else np.abs(hv))) / sc
                 worst = max(worst, viol)
                 ctx.count("check.feasibility")
-                c.require(viol <= 1e-6, "solve:returned-point-violates-%s" % ("inequality" if c_["typ"] == "<" else "equality"),
-                          "%s: constraint %r violated by %.3g (relative) at the returned point" % (tag, rc, viol),
-                          constraint_value=hv)
+                c.check()
+                if viol > 1e-6:
+                    c.fail(mech(p, rcons, ref, "solve:returned-point-violates-%s" % ("inequality" if c_["typ"] == "<" else "equality")),
+                           "%s: constraint %r violated by %.3g (relative) at the returned point" % (tag, rc, viol),
+                           constraint_value=hv)
+                    return
             ctx.maxobs("feasibility." + tag, worst)
             # objective
             ctx.count("check.objective")
